@@ -7,7 +7,7 @@ HERE = os.path.dirname(os.path.dirname(os.path.abspath(__file__)))
 
 T = {
     "C01": ("model-based PBT: Hypothesis-generated logical tables vs exact pure-Python per-group reference",
-            "Generated-input search (Hypothesis) over keys x values x masks x 8 reductions against an independent exact reference model; both directions (labels and values). Bounded sizes; no absence claim.", "4 C01"),
+            "Generated-input search (Hypothesis) over keys x values x masks x 8 reductions against an independent exact reference model; both directions (labels and values); contiguous and scaled-down chunk-wise / sorted-prefix routes, repeated masked calls on one object, real-scale tier with NaN float keys. Bounded sizes; no absence claim.", "4 C01"),
     "C02": ("PBT with validity-predicate oracle over every factorization route + exhaustive small 2-key tables",
             "Every route (plain, categorical, bool, range, arrow, monotonic, partial monotonic, chunk-wise, pre-chunked) is driven with generated keys and the partition predicate is checked in both directions; small 2-key tables enumerated.", "4 C02"),
     "C03": ("differential PBT across execution configurations with harness-owned task schedule + real-scale tier",
@@ -15,17 +15,17 @@ T = {
     "C04": ("exhaustive enumeration of short code/value sequences x splits x masks x kernels vs reference model, plus Hypothesis sampling of longer ones",
             "All sequences up to the stated length are enumerated (a finite space, visited completely) and compared exactly with the per-group definition; longer inputs are sampled.", "4 C04"),
     "C05": ("metamorphic PBT: mask vs pre-filtered run, and non-interference of unselected rows",
-            "Two metamorphic relations over generated keys/values/masks for every maskable operation.", "4 C05"),
+            "Two metamorphic relations over generated keys/values/masks (stepped slices, repeated positions) for every maskable operation; contiguous keys with 1-4 worker threads, chunk-wise keys, repeated masked calls through one buffer.", "4 C05"),
     "C06": ("metamorphic PBT: delete / re-draw null-key rows, information-flow in both directions",
             "Generated inputs with nulls in any key position; relation between runs with and without the null-key rows for every operation.", "4 C06"),
     "C07": ("relational PBT: transform=True output vs broadcast of the plain reduction, across key layouts",
-            "Relation between two library outputs checked per row for generated inputs, contiguous and chunk-wise key layouts, pandas/polars/numpy containers.", "4 C07"),
+            "Relation between two library outputs checked per row for generated inputs, contiguous and chunk-wise key layouts (before/after lazy unification), pandas/polars/numpy containers, single columns and frames of several columns; harness-side monitor of the merge kernel's length precondition.", "4 C07"),
     "C08": ("model-based PBT + exhaustive small interleavings: per-group prefix reductions",
             "Prefix model over generated interleavings, null placements, masks, dtypes and skip_na; small space enumerated.", "4 C08"),
     "C09": ("model-based PBT + exhaustive small interleavings: per-group sliding windows; differential vs group-sorted layout",
             "Sliding-window model over generated interleavings/windows/min_periods/nulls/masks/dtypes; exactness of selections on >2^53 and ns timestamps.", "4 C09"),
     "C10": ("closed-form oracle PBT for EMA + relations between entry points",
-            "Closed-form weighted mean per group over generated interleavings, alphas, real halflives, irregular times; alpha/halflife and grouped/ungrouped relations.", "4 C10"),
+            "Closed-form weighted mean per group over generated interleavings, alphas, real halflives, irregular times in ns/us/ms/s units and five containers; alpha/halflife and grouped/ungrouped relations.", "4 C10"),
     "C11": ("predicate PBT on result index/order/shape/names across input shapes",
             "Generated key orders/categoricals/value collections; predicates on labels, order, names, columns; column independence relation.", "4 C11"),
     "C12": ("differential PBT: one logical dataset rendered in two containers/dtypes/chunk layouts",
@@ -35,15 +35,15 @@ T = {
     "C14": ("model-based PBT for margins and crosstab on sparse key combinations",
             "Margins and cross-tab cells/totals compared with the reference model aggregation over generated sparse multi-key inputs.", "4 C14"),
     "C15": ("model-based PBT for head/tail/nth incl. a large-group size tier",
-            "Row-selection model over generated interleavings/indexes/n and dedicated group sizes around 2^15 and 2^16.", "4 C15"),
+            "Row-selection model over generated interleavings/indexes/n and dedicated group sizes / n around 2^7, 2^8, 2^15 and 2^16 with keys coded in int8 / int16 / int64.", "4 C15"),
     "C16": ("model-based PBT with principled error bound for variance; differential vs NumPy for quantiles/apply; relational for composites",
             "Exact Fraction two-pass variance with a rounding bound, np.median/np.quantile per group, apply/agg/ratio/density relations on generated inputs.", "4 C16"),
     "C17": ("differential PBT: facade vs core engine and vs pandas.groupby",
             "Generated Series/DataFrames with arbitrary indexes; every facade method compared with the core engine and with pandas where pandas offers the operation.", "4 C17"),
     "C18": ("fault-style PBT: every operation x array argument x length delta / index variant must raise iff misaligned",
-            "Systematic enumeration of (operation, argument, misalignment) with generated data; oracle is exception vs return.", "4 C18"),
+            "Systematic enumeration of (operation, argument, misalignment, container of the misaligned argument) with generated data; oracle is exception vs return.", "4 C18"),
     "C19": ("stateful PBT with byte-level snapshots and aliasing probes",
-            "Inputs snapshotted before/after each generated call; results mutated in place between calls; shares_memory probes.", "4 C19"),
+            "Inputs snapshotted before/after each generated call; results mutated in place between calls; shares_memory probes; GroupBy histories and the stand-alone functions / array-level kernels.", "4 C19"),
     "C20": ("differential PBT vs NumPy nan-functions; exhaustive small boolean frames; containment predicate for bins",
             "nanops vs NumPy over lengths x threads x null placements (one shard under NUMBA_BOUNDSCHECK=1); boolean frames enumerated; pretty_cut containment predicate.", "4 C20"),
 }
